@@ -548,6 +548,12 @@ func (pool *hostConnPool) fillingStopped(err error) {
 		pool.logger.Printf("gocql: conns of pool after stopped %q: %v\n", host.ConnectAddress(), count)
 	}
 	if err != nil && count == 0 {
+		if cur, ok := pool.session.pool.getPool(host); !ok || cur != pool {
+			// this pool has been removed (a removed host, or one that came back under the
+			// same id with another address and has a pool of its own): what is registered
+			// under the host's id now is not ours to take down
+			return
+		}
 		if pool.session.cfg.ConvictionPolicy.AddFailure(err, host) {
 			// the pool knows its host: looking it up by the address it connects to
 			// misses hosts whose node-to-node address differs from that address
